@@ -23,6 +23,25 @@ C19 = {
     "assumptions": ASSUME_COMMON + ["ValuePointer components are read through their derived Debug output (the component type is not exported)"],
 }
 
+C17 = {
+    "sub": "kinds",
+    "mc": {
+        "quick": [{"module": "MC_kinds", "cfg": "MC_kinds.cfg", "workers": 8}],
+        "thorough": [{"module": "MC_kinds", "cfg": "MC_kinds_thorough.cfg", "workers": 12, "timeout": 1800}],
+    },
+    "replay_args": ["replay"],
+    "random_args": {"quick": [["subsets", "6"], ["random", "500", "12"]], "thorough": [["subsets", "40"], ["random", "20000", "14"]]},
+    "trace": ("Trace_kinds", "Trace_kinds.cfg"),
+    "shards": {"quick": 8, "thorough": 14},
+    "nontrivial": lambda ev: (repr(ev["inp"]["kinds"]) if len(set(ev["inp"]["kinds"])) >= 2 else None),
+    "rule": "one run per kind list: every sequence of <= 5 (quick) / 6 (thorough) kinds with repetitions enumerated by TLC "
+            "(MC_kinds: transcription of sort+dedup+description_rec equals the set-based phrase, and is invariant under adjacent swaps) "
+            "and replayed through the real value_kinds_description_json; plus all 256 subsets in seeded random permutations with "
+            "repetitions and random lists up to length 12/14; non-trivial = distinct lists naming >= 2 different kinds",
+    "assumptions": ASSUME_COMMON + ["the query-parameter description is specified as the constant 'a string' (documented in the source)"],
+}
+
 CHECKS = {
+    "C17": (lambda pid, tier: helpers.run(pid, tier, C17), lambda pid, path: helpers.replay(pid, C17, path)),
     "C19": (lambda pid, tier: helpers.run(pid, tier, C19), lambda pid, path: helpers.replay(pid, C19, path)),
 }
